@@ -12,7 +12,10 @@ use crate::{
 };
 use tracing::{debug, trace, warn};
 
+#[cfg(not(feature = "verif-hooks"))]
 use instant::{Duration, Instant};
+#[cfg(feature = "verif-hooks")]
+use {crate::verif_hooks::Instant, instant::Duration};
 use std::collections::vec_deque::Drain;
 use std::collections::VecDeque;
 use std::collections::{BTreeMap, HashMap};
